@@ -239,7 +239,8 @@ def _case_grammar(rng, n, kind=None):
             for k in range(1001):
                 b += fb.priority(odd_sid + 2 * k + 100, dep=0, weight=16)
             hd = base_h
-        b += fb.headers(odd_sid, hd, end_stream=rng.random() < 0.5) + fb.rst(odd_sid, 8)
+        # (... or the client says GOAWAY behind it: the whole connection is closed as far as the protocol library is concerned)
+        b += fb.headers(odd_sid, hd, end_stream=rng.random() < 0.5) + (fb.rst(odd_sid, 8) if rng.random() < 0.6 else fb.goaway(last=0, code=0))
         steps.append(["feed", b])
         expect_conn_error = None
     elif kind == "non_ascii_method":
